@@ -249,6 +249,9 @@ func classifyAxioms(c AxiomCase) (bool, []string) {
 		labels = append(labels, "pool:"+c.Pool)
 	}
 	labels = append(labels, ties...)
+	if beyond2p53(keys) {
+		labels = append(labels, "keys:beyond-2^53-one-float64")
+	}
 	return len(keys) >= 3 && len(ties) > 0, labels
 }
 
@@ -325,6 +328,7 @@ func axiomPools() []pool {
 	ps = append(ps, pool{"numbers", nums, "", append(append([]string{}, plain...), ctx...)})
 	odd := append(append(append([]string{}, oddNumberish...), numberPool[34:]...), "0", "1", "a")
 	ps = append(ps, pool{"numberish", odd, "", append(append([]string{}, plain...), ctx...)})
+	ps = append(ps, pool{"big-integers", bigNumberPool(), "", append(append([]string{}, plain...), ctx...)})
 	ps = append(ps, pool{"weekdays", withCase(weekdayNames, 40), "", append(append(append([]string{}, ctx...), dt...), "text", "numeric", "value")})
 	ps = append(ps, pool{"months", withCase(monthNames, 40), "", append(append(append([]string{}, ctx...), dt...), "text", "numeric", "value:desc")})
 	ps = append(ps, pool{"words", plainWords, "", append(append(append([]string{}, ctx...), dt...), "text")})
@@ -360,7 +364,7 @@ func ctxIfSearched(isMixture bool) []string {
 
 var axiomSpec = pbt.Spec[AxiomCase]{
 	Property: prop, Name: "axioms",
-	Rule:  "bounded-exhaustive: fixed key pools (text incl. empty/non-UTF-8/NUL, number spellings, things a float parser may or may not read, weekday and month names with aliases and case variants, plain words, 14 fixed-width date layouts incl. equal instants in different zones; mixture pools while not listed as known findings) x sort names (text numeric contextual date value with modifiers, NV* sorters); one case = (sort, pool, first element a), checked for every b and c of the pool: exactly one of less(a,b)/less(b,a) from fresh sorters, same answer again, same answer from a sorter that has already compared other keys, transitivity over (a,b,c). Values are spread over 3 totals so that value ties occur. Non-trivial: pool >=3 keys holding a tie class",
+	Rule:  "bounded-exhaustive: fixed key pools (text incl. empty/non-UTF-8/NUL, number spellings, integers beyond 2^53 a few units apart (2^53.., 10^18.., 2^63-1.., both signs) plain and spelled .0 / e0 / e+NN so that several keys are one float64, things a float parser may or may not read, weekday and month names with aliases and case variants, plain words, 14 fixed-width date layouts incl. equal instants in different zones; mixture pools while not listed as known findings) x sort names (text numeric contextual date value with modifiers, NV* sorters); one case = (sort, pool, first element a), checked for every b and c of the pool: exactly one of less(a,b)/less(b,a) from fresh sorters, same answer again, same answer from a sorter that has already compared other keys, transitivity over (a,b,c). Values are spread over 3 totals so that value ties occur. Non-trivial: pool >=3 keys holding a tie class",
 	Check: checkAxioms, Classify: classifyAxioms,
 }
 
@@ -413,7 +417,7 @@ func genTriple(t *rapid.T) AxiomCase {
 
 var tripleSpec = pbt.Spec[AxiomCase]{
 	Property: prop, Name: "triple",
-	Rule:   "generated key sets of 2..7 keys (kind per mode: any mixture for text/numeric/value; for contextual: all weekdays | all months | no calendar name; for date: one fixed-width layout | all weekdays | all months | plain words; mixtures too while not listed as known findings) x values -1..2 x sort name; all pairs and triples checked for the comparator axioms as in `axioms`. Non-trivial: >=3 keys holding a tie class",
+	Rule:   "generated key sets of 2..7 keys (kind per mode: any mixture for text/numeric/value, number spellings, families of integers beyond 2^53 a few units apart in plain / .0 / e0 / e+NN / 0-prefixed spellings (label keys:beyond-2^53-one-float64: only the axioms and permutation invariance are asserted between keys that are one float64); for contextual: all weekdays | all months | no calendar name; for date: one fixed-width layout | all weekdays | all months | plain words; mixtures too while not listed as known findings) x values -1..2 x sort name; all pairs and triples checked for the comparator axioms as in `axioms`. Non-trivial: >=3 keys holding a tie class",
 	Budget: pbt.Budget{Quick: 16000, Thorough: 200000},
 	Gen:    genTriple, Check: checkAxioms, Classify: classifyAxioms,
 }
@@ -793,6 +797,9 @@ func classifyPerm(c PermCase) (bool, []string) {
 	mode, mod, _ := strings.Cut(c.Sort, ":")
 	labels := []string{"mode:" + mode, "modifier:" + mod, "kind:" + kind, mode + "/" + kind}
 	labels = append(labels, ties...)
+	if beyond2p53(keys) {
+		labels = append(labels, "keys:beyond-2^53-one-float64")
+	}
 	labels = append(labels, c.Obs.All()...)
 	if key, in := inKnownClass(mode, keys, c.Layout); in {
 		labels = append(labels, "class:"+key)
